@@ -385,6 +385,75 @@ def h_cancelled(eng, case):
     eng.reach('end')
 
 
+def h_partial(eng, case):
+    """several Interests wait under one name; a Data that addresses only some of them arrives; the others still
+    complete with the Data that addresses them"""
+    import hashlib
+    import ndn.types as types
+    import ndn.encoding as enc
+    front = case['front']
+    app, face = appenv.make_app(front)
+    res = {}
+
+    async def pass_v2(name, sig, ctx):
+        return types.ValidResult.PASS
+
+    async def pass_v1(name, sig):
+        return True
+
+    async def consumer(tag, name, cbp):
+        try:
+            if front == 'v2':
+                nm, c, ctx = await app.express(name, pass_v2, lifetime=4000, nonce={'P': 1, 'E': 2, 'D1': 3, 'D2': 4}[tag], can_be_prefix=cbp)
+            else:
+                nm, m_, c = await app.express_interest(name, validator=pass_v1, lifetime=4000, nonce={'P': 1, 'E': 2, 'D1': 3, 'D2': 4}[tag],
+                                                       can_be_prefix=cbp)
+            res[tag] = ('data', bytes(c))
+        except Exception as e:
+            res[tag] = (type(e).__name__,)
+    long_d = bytes(enc.make_data('/a/b/c', enc.MetaInfo(), b'longer'))
+    exact_d = bytes(enc.make_data('/a/b', enc.MetaInfo(), b'exact'))
+    other_d = bytes(enc.make_data('/a/b', enc.MetaInfo(), b'other-version'))
+    variant = case['variant']
+    if variant == 'prefix':
+        waiters = [('P', '/a/b', True), ('E', '/a/b', False)]
+        first, second = long_d, exact_d
+        expect = {'P': ('data', b'longer'), 'E': ('data', b'exact')}
+    else:
+        n1 = enc.Name.from_str('/a/b') + [enc.Component.from_bytes(hashlib.sha256(exact_d).digest(), 1)]
+        n2 = enc.Name.from_str('/a/b') + [enc.Component.from_bytes(hashlib.sha256(other_d).digest(), 1)]
+        waiters = [('D1', n1, False), ('D2', n2, False)]
+        first, second = exact_d, other_d
+        expect = {'D1': ('data', b'exact'), 'D2': ('data', b'other-version')}
+    if eng.choice(2, 'order'):
+        waiters.reverse()
+
+    async def main(loop):
+        ts = [asyncio.ensure_future(consumer(*w)) for w in waiters]
+        await asyncio.sleep(0)
+        await vloop.sleep_until(loop, loop.at_ms(10))
+        try:
+            await app._receive(6, first)
+            for _ in range(4):
+                await asyncio.sleep(0)
+            await vloop.sleep_until(loop, loop.at_ms(20))
+            await app._receive(6, second)
+        except Exception as e:
+            eng.fail('receive-returns', exc_sig(e), repr(e)[:120])
+        for t in ts:
+            await t
+    loop, r, err = appenv.run(eng, main)
+    if err == 'deadlock':
+        eng.fail('unrelated-state-unaffected', 'deadlock')
+        return
+    eng.check(True, 'receive-returns')
+    for tag, exp in expect.items():
+        eng.check(res.get(tag) == exp, 'unrelated-state-unaffected', {'interest': tag, 'got': repr(res.get(tag)),
+                                                                      'expected': repr(exp)},
+                  sig='waiter-not-addressed-by-the-first-data-lost')
+    eng.reach('end')
+
+
 def h_fragment(eng, case):
     """an envelope with fragmentation headers (FragIndex >= 1, or FragCount >= 2), whatever complete packet its payload
     happens to decode as, is dropped"""
@@ -455,13 +524,16 @@ def h_udp(eng, case):
     eng.reach('end')
 
 
-HARNESSES = {'stray_nack': h_stray_nack, 'cancelled': h_cancelled, 'fragment': h_fragment, 'frame_sym': h_frame_sym, 'frame_cuts': h_frame_cuts, 'robust_sym': h_robust_sym,
+HARNESSES = {'partial': h_partial, 'stray_nack': h_stray_nack, 'cancelled': h_cancelled, 'fragment': h_fragment, 'frame_sym': h_frame_sym, 'frame_cuts': h_frame_cuts, 'robust_sym': h_robust_sym,
              'robust_mut': h_robust_mut, 'udp': h_udp}
 
 
 def cases(tier, seed):
     quick = tier == 'quick'
     cs = []
+    for front in ('v2', 'v1'):
+        for variant in ('prefix', 'digest'):
+            cs.append(('partial', {'front': front, 'variant': variant}, {'weight': 3}))
     for front in ('v2', 'v1'):
         for name in ('/p/x', '/p', '/a', '/a/b/c', '/zz'):
             cs.append(('stray_nack', {'front': front, 'name': name}, {'weight': 3}))
